@@ -119,10 +119,10 @@ def ties(ctx):
     out.append(_tie(ctx, 'dtx-regime-switch', ['scen', 'regime-switch', '0', '16', '1', '0', 'tie']))
     out.append(_tie(ctx, 'dtx-silk-bust', ['scen', 'silk-bust', '0', '1', '1', '0', 'tie']))
     # the SILK VAD: real silk_VAD_GetSA_Q8_c (silk/VAD.c #included) vs OpusModel.SilkVad, every state field and output
-    out.append(_tie(ctx, 'silk-vad', ['tie', s, '250' if ctx.quick else '6000'], harness='c20_vad'))
+    out.append(_tie(ctx, 'silk-vad', ['tie', s, '250' if ctx.quick else '4000'], harness='c20_vad'))
     # the same inside the real encoder (--wrap on both kernels of the run-time dispatch table), portable C and SSE4.1
     for cap in ('0', '4'):
-        out.append(_tie(ctx, 'silk-vad-enc-arch%s' % cap, ['enc', s, '40' if ctx.quick else '800'], harness='c20_vadenc',
+        out.append(_tie(ctx, 'silk-vad-enc-arch%s' % cap, ['enc', s, '40' if ctx.quick else '500'], harness='c20_vadenc',
                         env={'OPUS_VERIF_ARCH_CAP': cap}))
     out.append(_tie(ctx, 'dtx-nan-pattern', ['scen', 'nan-pattern', '0', '11', '2', '0', 'tie']))
     return out
